@@ -653,7 +653,7 @@ def rule_r5(prog, res) -> None:
     body_start = [wcfg.nodes[j] for j, lab in wcfg.succ[hdr[0].id] if lab == "n"]
     for o in outs:
         stores = [n_ for n_ in wcfg.nodes if n_.kind == "stmt" and isinstance(n_.ast, ast.Assign) and any(isinstance(t, ast.Subscript) and isinstance(t.value, ast.Name) and t.value.id == o for t in n_.ast.targets)]
-        skip = wcfg.reach(body_start, avoid=lambda x_: x_ in stores, labels={"n", "t", "f", "loop", "exh"})
+        skip = wcfg.reach([b_ for b_ in body_start if b_ not in stores], avoid=lambda x_: x_ in stores, labels={"n", "t", "f", "loop", "exh"})
         if hdr[0].id in skip or not stores:
             res.violation("C01.R5", worker, lp, f"an iteration of the bin loop can finish without storing into `{o}`: for that bin the counts / the sum of weights of a catalog is missing from the result although its tree holds objects", key_extra=f"bin-not-recorded-{o}")
         else:
